@@ -13,4 +13,5 @@ let lookup (p : string) : Model.val0 -> Model.val0 =
   | "C18" -> Model.run_C18
   | "C16" -> Model.run_C16
   | "C12" -> Model.run_C12
+  | "C19" -> Model.run_C19
   | _ -> failwith ("unknown property " ^ p)
